@@ -335,7 +335,10 @@ def _sequence(seq, what, note):
 def w_c17(seed):
     seq = [("use prelude", "<continue>"), ("use extra::astronomy", "<continue>"), ("use extra::astronomy", "<continue>"), ("lunar_radius -> km", "1737.4 km"),
            ("use prelude", "<continue>"), ("1 m + 2 m", "3 m"), ("use units::si\nuse units::si\nuse core::scalar", "<continue>"), ("3 kg", "3 kg"),
-           ("use extra::astronomy\nuse prelude\nuse extra::astronomy", "<continue>"), ("lunar_radius -> km", "1737.4 km")]
+           ("use extra::astronomy\nuse prelude\nuse extra::astronomy", "<continue>"), ("lunar_radius -> km", "1737.4 km"),
+           # an input that imports a new module and then fails: afterwards every import behaves as if that input had not been submitted
+           ("use extra::cooking\nlet vx_d: Length = 1 second", None), ("use units::us_customary", "<continue>"), ("use prelude", "<continue>"), ("use extra::cooking", "<continue>"),
+           ("1 gallon -> gallon", "1 gal"), ("use core::lists\nuse does::not::exist", None), ("use core::lists", "<continue>"), ("use units::si", "<continue>"), ("len([1, 2])", "2")]
     return _sequence(seq, "imports", "inputs with repeated imports of already imported modules succeed and change nothing")
 
 
